@@ -274,6 +274,9 @@ Record case := mkCase
     c_file_ok : bool;            (* format.File on a file holding the source = format.Source *)
     c_conc_ok : bool;            (* formatted again by 8 goroutines at once, between all the other
                                     programs of the run: the same text / the same kind of outcome *)
+    c_multi_ok : bool;           (* when the program is the root of a set of files importing one another:
+                                    goctl's analyzer reads the same API description off the set before
+                                    and after format.File on every file, and a second pass changes nothing *)
     c_strict : bool;             (* judge the comments at full strength (no comment may be lost) *)
     c_muts : list outcome }.     (* format.Source on mutated (mostly invalid) variants *)
 
@@ -347,6 +350,7 @@ Definition prop_ok (c : case) : bool :=
   end
   && c_file_ok c
   && c_conc_ok c
+  && c_multi_ok c
   && forallb not_crash (c_muts c).
 
 (* diagnosis for replay files: which conjunct of [prop_ok] failed, and the model's own outputs *)
